@@ -86,7 +86,8 @@ SimNext ==
               [] w = 7 -> CopyA
               [] w = 8 -> RoundTripA(i, "to_dict")
               [] w = 9 -> RoundTripA(i, "to_string")
-              [] OTHER -> UpdateA(i, NoPatch, armed)
+              [] OTHER -> IF RandomElement(1..2) = 1 THEN UpdateA(i, NoPatch, armed)      \* an empty change: nothing happens
+                          ELSE LoadA(i, NoPatch, armed)                                    \* an empty configuration REPLACES what was there
 
 \* exhaustive exploration uses a fixed small set of patches
 CONSTANTS ExPatches
